@@ -1208,15 +1208,8 @@ class OdeSystem(object):
             if self.__dense_output and self.sol is not None:
                 return StateTuple(t=index, y=self.sol(index), event=None)
             else:
-                nearest_idx = deutil.search_bisection(self.__t, index)
-                if nearest_idx < self.counter:
-                    if D.ar_numpy.abs(D.ar_numpy.to_numpy(self.t[nearest_idx] - index)) < D.ar_numpy.abs(
-                            D.ar_numpy.to_numpy(self.t[nearest_idx + 1] - index)):
-                        return StateTuple(t=self.t[nearest_idx], y=self.y[nearest_idx], event=None)
-                    else:
-                        return StateTuple(t=self.t[nearest_idx + 1], y=self.y[nearest_idx + 1], event=None)
-                else:
-                    return StateTuple(t=self.t[nearest_idx], y=self.y[nearest_idx], event=None)
+                nearest_idx = int(D.ar_numpy.argmin(D.ar_numpy.abs(self.t - index)))
+                return StateTuple(t=self.t[nearest_idx], y=self.y[nearest_idx], event=None)
 
     def __len__(self):
         return self.counter + 1
